@@ -20,7 +20,8 @@ Definition ignores_underb (mk : modk) : bool :=
   match mk with
   | MWith | MOff | MAbove | MBelow | MFork | MBracket | MTry | MDipN _
   | MReduce | MScan | MFold | MRows | MEach | MInventory | MTable | MTuples | MGroup | MPartition
-  | MSpawn | MPool | MRepeat | MRepeatWithInverse | MStencil | MReduceContent | MReduceDepth _ => true
+  | MSpawn | MPool | MRepeat | MRepeatWithInverse | MStencil | MReduceContent | MReduceDepth _
+  | MHandleSig | MBothImpl _ _ | MUnBothImpl _ _ => true
   | _ => false end.
 (** modifiers checked in context whose run-time form uses the stored signature: it must be the inferred one *)
 Definition needs_exactb (mk : modk) : bool :=
@@ -76,7 +77,8 @@ Definition mod_modelled (mk : modk) (nargs : nat) : bool :=
   match mk, nargs with
   | (MDip | MGap | MOn | MBy | MWith | MOff | MAbove | MBelow | MBoth | MCase | MDipN _
      | MReduce | MScan | MFold | MRows | MEach | MInventory | MTable | MTuples | MGroup | MPartition
-     | MSpawn | MPool | MRepeat | MStencil | MReduceContent | MReduceDepth _), 1 => true
+     | MSpawn | MPool | MRepeat | MStencil | MReduceContent | MReduceDepth _
+     | MHandleSig | MOnSub _ | MBothImpl 0 _ | MUnBothImpl 0 _), 1 => true
   | (MFork | MBracket | MFill | MTry | MRepeatWithInverse), 2 => true
   | _, _ => false end.
 Fixpoint exec_modelled (n : node) : bool :=
